@@ -46,6 +46,9 @@ class Rounded (F : Type) [Num F] where
   /-- `x - 0.0` and `x + 0.0` are exact (used by `From<Float>`) -/
   sub_zero_exact : ∀ (a : F) (x : ℝ), ¬ nan a → val a = x → ¬ nan (a - 0) ∧ val (a - 0) = x
   add_zero_exact : ∀ (a : F) (x : ℝ), ¬ nan a → val a = x → ¬ nan (a + 0) ∧ val (a + 0) = x
+  /-- the literals `4.` and `0.5` of `solve_quadratic` are exact -/
+  four_val : ¬ nan (4 : F) ∧ val (4 : F) = ((4 : ℝ) : EReal)
+  half_val : ¬ nan (0.5 : F) ∧ val (0.5 : F) = (((1 : ℝ) / 2 : ℝ) : EReal)
 
 namespace Rounded
 variable {F : Type} [Num F] [Rounded F]
